@@ -1,7 +1,7 @@
 (* C12 — Task restarts stay within the configured policy.  Property theorems only. *)
 From Coq Require Import ZArith List Bool String.
 Import ListNotations.
-Require Import V.Restart.Model V.Restart.Proofs V.Restart.More V.Restart.Config.
+Require Import V.Restart.Model V.Restart.Proofs V.Restart.More V.Restart.Config V.Restart.Raise.
 Open Scope Z_scope.
 
 (* A task is started again only for a listed reason or a failed submission (ordinary engines),
@@ -104,6 +104,51 @@ Proof.
   split; [exact (hook_can_allow c s r h stable ok)|intros h'; exact (hook_counters_same c s r h h' stable ok)].
 Qed.
 Print Assumptions C12_hook_power.
+
+(* ---- a hook that raises, by the exception it raises (its MRO; Raise.v models the two handlers
+   `except IOError` / `except Exception` around the call of the hook as data).  A consulted hook of
+   the package raising anything that is not an IOError - ImportError / ModuleNotFoundError of a lazy
+   import included - is a FAILED hook: RestartCouldNotInitiate whatever run() would do, the attempt is
+   counted, and over any history that exit is the last one handled (the component receives the final
+   state its exit reason dictates).  Raising an IOError (any class with OSError in its MRO) is the
+   answer "hook not available", for every configuration and state.  The outcome depends on the MRO
+   only through the membership of "OSError". *)
+Theorem C12_raising_hook : forall c s r m stable ok,
+  (raise_out m = if isinstance m "OSError" then HRaiseIO else HRaiseOther) /\
+  (isinstance m "OSError" = true ->
+     ctl_restart c s r (raise_out m) stable ok = ctl_restart c s r HNotAvailable stable ok) /\
+  (hook_called c s r = true -> custom_hook c = true -> isinstance m "OSError" = false ->
+     ctl_restart c s r (raise_out m) stable ok = (bump s, CouldNotInitiate)) /\
+  (forall e h, hook_called c (on_exit s (ev_reason e)) (ev_reason e) = true -> custom_hook c = true ->
+     isinstance m "OSError" = false -> ev_hook e = raise_out m ->
+     exists s', run_hist c s (e :: h) = ([CouldNotInitiate], Some (final_of c (ev_reason e)), s')).
+Proof.
+  intros c s r m stable ok. split; [exact (raise_out_spec m)|].
+  split; [exact (raising_hook_io c s r m stable ok)|].
+  split; [exact (raising_hook_refused c s r m stable ok)|].
+  intros e h Hc Hu Hi He. exact (raising_hook_final c s e m Hc Hu Hi He h).
+Qed.
+Print Assumptions C12_raising_hook.
+
+(* ---- the hook MODULE failing while it is imported (it is executed again at every restart attempt).
+   `except (ImportError, IOError)` around the import: such a module is a missing module - for every
+   configuration, state and exit the outcome is that of the same component without loadable hook
+   (the DLMESORestart fallback is consulted).  Anything else raised by the module, and a module
+   without Restart, is a broken hook: the exception leaves Engine.restart after the attempt has been
+   counted, the controller keeps RestartCouldNotInitiate - the restart is refused whatever run()
+   would do. *)
+Theorem C12_hook_import : forall c s r l h stable ok,
+  (forall m, l = LoadRaises m -> (isinstance m "ImportError" || isinstance m "OSError") = true ->
+     ctl_restart c s r (hook_after_load l r h) stable ok = ctl_restart (unloadable c) s r h stable ok) /\
+  (hook_called c s r = true -> custom_hook c = true ->
+   (l = LoadNoRestart \/ exists m, l = LoadRaises m /\ (isinstance m "ImportError" || isinstance m "OSError") = false) ->
+     ctl_restart c s r (hook_after_load l r h) stable ok = (bump s, CouldNotInitiate)) /\
+  hook_after_load LoadOk r h = h.
+Proof.
+  intros c s r l h stable ok. split; [intros m -> Hm; exact (load_import_error_is_missing c s r m h stable ok Hm)|].
+  split; [exact (load_broken_refused c s r l h stable ok)|reflexivity].
+Qed.
+Print Assumptions C12_hook_import.
 
 (* ---- the DLMESO CONTROL-file hook shipped in engine.py as a concrete hook instance: four possible
    answers, silent on every reason but ResourceExhausted, rewrites the file only when it allows the
@@ -300,6 +345,33 @@ Proof.
   - cbn. intros [H|[H|[]]]; discriminate.
   - repeat constructor; discriminate.
 Qed.
+
+(* the raising-hook theorem is not vacuous: a named hook file without maximum (unlimited budget), the
+   hook raises ModuleNotFoundError / ImportError when called: consulted, refused at the first exit, the
+   component fails after ONE launch although four more ResourceExhausted exits would follow; the same
+   hook raising FileNotFoundError (an IOError) is "not available": every exit is followed by a restart *)
+Definition ex_named : cfg := {| max_restarts := None; hook_file := HFNamed; hook_loadable := true;
+  hook_on := [ResourceExhausted]; is_sim := false; sim_restart := false; is_rep := false; shutdown_on := [] |}.
+Example C12_nonvacuous_raise :
+  raise_out mro_ModuleNotFoundError = HRaiseOther /\ raise_out mro_ImportError = HRaiseOther /\
+  raise_out mro_FileNotFoundError = HRaiseIO /\
+  raise_out ["UnsupportedOperation"; "OSError"; "ValueError"; "Exception"; "BaseException"; "object"]%string = HRaiseIO /\
+  hook_called ex_named init_st ResourceExhausted = true /\ custom_hook ex_named = true /\ eff_max ex_named = -1 /\
+  (let ev m := {| ev_reason := ResourceExhausted; ev_hook := raise_out m; ev_stable := true; ev_run_ok := true |} in
+   run_hist ex_named init_st (map ev [mro_ModuleNotFoundError; mro_ModuleNotFoundError; mro_ModuleNotFoundError])
+     = ([CouldNotInitiate], Some Failed, {| restarts := 1; resub := 0; shut := true |}) /\
+   fst (fst (run_hist ex_named init_st (map ev [mro_FileNotFoundError; mro_FileNotFoundError; mro_FileNotFoundError])))
+     = [Initiated; Initiated; Initiated]) /\
+  (* the module itself fails at import: ModuleNotFoundError -> missing module, the fallback's IOError on
+     ResourceExhausted starts the task again; SyntaxError / no Restart -> refused *)
+  ctl_restart ex_named init_st ResourceExhausted (hook_after_load (LoadRaises mro_ModuleNotFoundError) ResourceExhausted HPossible) true true
+    = ({| restarts := 1; resub := 0; shut := false |}, Initiated) /\
+  ctl_restart ex_named init_st ResourceExhausted
+    (hook_after_load (LoadRaises ["SyntaxError"; "Exception"; "BaseException"; "object"]%string) ResourceExhausted HPossible) true true
+    = ({| restarts := 1; resub := 0; shut := false |}, CouldNotInitiate) /\
+  ctl_restart ex_named init_st ResourceExhausted (hook_after_load LoadNoRestart ResourceExhausted HPossible) true true
+    = ({| restarts := 1; resub := 0; shut := false |}, CouldNotInitiate).
+Proof. repeat split; reflexivity. Qed.
 
 (* the configuration theorems are not vacuous: a document with a literal list in a platform override, a
    variable reference in the component and the effective list [KnownIssue; ResourceExhausted] is
